@@ -45,13 +45,15 @@ const (
 	wlStreamLexer
 	wlIndenter
 	wlBinary
+	wlBufferRW
+	wlJSPrintOnly
 	nWorkloads
 )
 
-var wlNames = [...]string{"css.Lexer", "css.Parser", "html.Lexer", "xml.Lexer", "json.Parser", "js.Lexer", "js.Parse+print+Walk", "strconv", "helpers", "Position/Error", "Input+buffer.Lexer", "StreamLexer", "Indenter", "BinaryWriter/Reader"}
+var wlNames = [...]string{"css.Lexer", "css.Parser", "html.Lexer", "xml.Lexer", "json.Parser", "js.Lexer", "js.Parse+print+Walk", "strconv", "helpers", "Position/Error", "Input+buffer.Lexer", "StreamLexer", "Indenter", "BinaryWriter/Reader", "buffer.Writer/Reader+misc", "js.AST strings"}
 
 // wlLang maps a workload to the corpus it draws its input from.
-var wlLang = [...]int{0, 0, 1, 2, 3, 4, 4, 5, 6, 1, 6, 6, 6, 6}
+var wlLang = [...]int{0, 0, 1, 2, 3, 4, 4, 5, 6, 1, 6, 6, 6, 6, 6, 4}
 
 var corpus = [][]string{
 	0: { // css
@@ -533,6 +535,71 @@ func runWorkloadIn(in wlInput, scratch []byte) (out []byte) {
 			bw.Write(c&1 == 1)
 		}
 		t.add("bitmap", bw.Bytes())
+	case wlBufferRW:
+		w := buffer.NewWriter(make([]byte, 0, in.opt%7))
+		for _, part := range bytes.SplitAfter(d, []byte(" ")) {
+			call()
+			w.Write(part)
+		}
+		t.add("writer", w.Bytes(), w.Len())
+		r := buffer.NewReader(append([]byte(nil), w.Bytes()...))
+		p := make([]byte, 1+in.opt%5)
+		for i := 0; i < 200; i++ {
+			call()
+			n, err := r.Read(p)
+			t.add("read", p[:n], err)
+			if err != nil {
+				break
+			}
+		}
+		n, err := r.ReadAt(p, int64(len(d)/2))
+		t.add("readat", p[:n], err, r.Len())
+		w.Reset()
+		sw := buffer.NewStaticWriter(make([]byte, 0, 4))
+		n2, err2 := sw.Write(d)
+		t.add("static", n2, err2, sw.Bytes())
+		call()
+		t.add("appendescape", parse.AppendEscape(nil, d, []byte("\"'&"), '\\'))
+		t.add("copy", parse.Copy(d), parse.IsAllWhitespace(d))
+		for i, c := range string(d) {
+			if i > 40 {
+				break
+			}
+			t.add("rune", parse.Printable(c), parse.IsWhitespace(byte(c)), parse.IsNewline(byte(c)))
+		}
+	case wlJSPrintOnly:
+		call()
+		ast, err := js.Parse(parse.NewInputBytes(d), js.Options{Inline: in.opt&1 == 1})
+		t.add("parse", err)
+		if err == nil && ast != nil {
+			call()
+			t.add("jsstring", ast.JSString())
+			call()
+			js2, e2 := ast.JSONString()
+			t.add("jsonstring", js2, e2)
+			for i, st := range ast.List {
+				if i > 20 {
+					break
+				}
+				call()
+				t.add("stmt", st.String())
+				w := &yieldWriter{}
+				st.JS(w)
+				t.add("stmtjs", w.buf)
+			}
+			for i, v := range ast.Scope.Declared {
+				if i > 20 {
+					break
+				}
+				t.add("declared", v.Name(), int(v.Decl), int(v.Uses))
+			}
+			for i, v := range ast.Scope.Undeclared {
+				if i > 20 {
+					break
+				}
+				t.add("undeclared", v.Name(), int(v.Decl), int(v.Uses))
+			}
+		}
 	}
 	return append([]byte(nil), t.Bytes()...)
 }
